@@ -68,11 +68,11 @@ theorem Good.cons_ev {c : Cfg} {K : List Bytes} {E : List Em} {evp : List Bytes}
 /-! ### keys -/
 
 theorem keysNode_file (g : GetObj) (skip : List Bytes) (b n : Bytes) :
-    keysNode g skip b (.file n) = if n ∈ skip then [] else if (g (b ++ n)).isSome then [b ++ n] else [] := by
+    keysNode g skip b (.file n) = if (g (b ++ n)).isSome then [b ++ n] else [] := by
   simp [keysNode]
 
 theorem keysNode_dir (g : GetObj) (skip : List Bytes) (b n : Bytes) (cs : List Tree) :
-    keysNode g skip b (.dir n cs) = if n ∈ skip then [] else
+    keysNode g skip b (.dir n cs) = if (b ++ n) ∈ skip then [] else
       (if (g (b ++ n ++ [slash])).isSome then [b ++ n ++ [slash]] else []) ++ keysList g skip (b ++ n ++ [slash]) cs := by
   simp [keysNode]
 
@@ -85,7 +85,6 @@ theorem keysNode_prefix (g : GetObj) (skip : List Bytes) : ∀ (t : Tree) (b k :
     k ∈ keysNode g skip b t → (b ++ t.name) <+: k
   | .file n, b, k, h => by
     rw [keysNode_file] at h
-    split at h; · simp at h
     split at h
     · simp at h; rw [h]; exact List.prefix_refl _
     · simp at h
@@ -119,10 +118,7 @@ theorem good_file (c : Cfg) (h : Hyp c) (b n : Bytes) (hn : slash ∉ n) (hb : B
   have hvis : visNode c b (.file n) = [⟨b ++ n, n, false, true⟩] := by simp [visNode]
   have hev : eventsNode b (.file n) = [b ++ n] := by simp [eventsNode]
   rw [hvis, hev, emsOf_cons, emsOf_nil, List.append_nil, em_file c h b n hn hb, keysNode_file]
-  by_cases hs : n ∈ c.skip
-  · rw [if_pos hs, if_pos hs]; exact Good.nil c _
-  · rw [if_neg hs, if_neg hs]
-    -- facts about the key `b ++ n` when it carries the prefix
+  · -- facts about the key `b ++ n` when it carries the prefix
     have hent : c.pfx <+: b ++ n → entry c.pfx c.delim (b ++ n) = .obj (b ++ n) := by
       intro hP
       rcases h.delim with hd | hd
@@ -180,7 +176,7 @@ theorem good_file (c : Cfg) (h : Hyp c) (b n : Bytes) (hn : slash ∉ n) (hb : B
 
 /-- a rolled-up directory: one common prefix for all the keys below it -/
 theorem good_dir_rolled (c : Cfg) (h : Hyp c) (b n : Bytes) (cs : List Tree) (hn : slash ∉ n)
-    (hs : n ∉ c.skip) (hb : BaseOK c b)
+    (hs : (b ++ n) ∉ c.skip) (hb : BaseOK c b)
     (hpop : keysList c.getObj c.skip (b ++ n ++ [slash]) cs ≠ [])
     (hmc : ∀ k ∈ keysList c.getObj c.skip (b ++ n ++ [slash]) cs, MC c k)
     (h2 : rolledUp c (b ++ n ++ [slash])) :
@@ -297,17 +293,17 @@ theorem good_node (c : Cfg) (h : Hyp c) : ∀ (t : Tree) (b : Bytes), wfNode t =
     have hns := validName_no_slash n hw'.1
     have hev : eventsNode b (.dir n cs) = (b ++ n ++ [slash]) :: eventsList (b ++ n ++ [slash]) cs := by
       simp [eventsNode]
-    by_cases hs : n ∈ c.skip
+    by_cases hs : (b ++ n) ∈ c.skip
     · -- internal bookkeeping directory: skipped, and nothing below it is a key
       have hvis : visNode c b (.dir n cs) = [⟨b ++ n, n, true, cs.isEmpty⟩] := by
-        simp [visNode, flagOf_skip c _ n _ _ hs]
-      rw [hvis, keysNode_dir, if_pos hs, emsOf_cons, emsOf_nil, em_skip c _ n _ _ hs]
+        simp [visNode, flagOf_skip c _ n _ hs]
+      rw [hvis, keysNode_dir, if_pos hs, emsOf_cons, emsOf_nil, em_skip c _ n _ hs]
       exact Good.nil c _
     · have hK : keysNode c.getObj c.skip b (.dir n cs) = keysList c.getObj c.skip (b ++ n ++ [slash]) cs := by
         rw [keysNode_dir, if_neg hs, h.noDirObj]; simp
       have hpop' : keysList c.getObj c.skip (b ++ n ++ [slash]) cs ≠ [] ∧
           populatedList c.getObj c.skip (b ++ n ++ [slash]) cs = true := by
-        have hs' : c.skip.contains n = false := by simpa using hs
+        have hs' : c.skip.contains (b ++ n) = false := by simpa using hs
         simp only [populatedNode, hs', Bool.false_or, Bool.and_eq_true, Bool.not_eq_true'] at hpop
         rw [hK] at hpop
         exact ⟨by simpa using hpop.1, hpop.2⟩
